@@ -62,6 +62,7 @@ def _mk_corpus():
     add("gen/big.h", {"big.h": gen}, "big.h", "big.h", ["-D__cplusplus"], ["pf", "ig"])
     nh, nn = rd(os.path.join(cd, "nfile.h")), rd(os.path.join(cd, "nfile.N"))
     add("corpus/nfile.N", {"nfile.h": nh, "nfile.N": nn}, "nfile.h", "nfile.N", ["-D__cplusplus"], ["ig"])
+    add("corpus/nfile2.N", {"nfile.h": nh, "nfile.N": rd(os.path.join(cd, "nfile2.N"))}, "nfile.h", "nfile.N", ["-D__cplusplus"], ["ig"])
     # scale controls: large but regular inputs, executed fault-free and with a handful of truncations only
     def ctl(cid, name, text, args=()):
         add(cid, {name: text.encode()}, name, name, list(args), ["pf", "pfe"])
@@ -178,6 +179,12 @@ def generate(ctx):
                     if rng.chance(1, 3):
                         yield {"c": ci, "job": job, "build": "rel", "fault": f}
             data = ent["files"][ent["target"]]
+            if ent["target"].endswith(".N"):
+                # tiny targets (the .N command file) are enumerated completely even in the quick tier
+                for job in ent["jobs"]:
+                    for f in _faults_T(ent) + _faults_D(ent) + _faults_R(ent):
+                        yield {"c": ci, "job": job, "build": "rel", "fault": f}
+                continue
             for _ in range(n):
                 job = rng.choice(ent["jobs"])
                 off = rng.below(ent["size"])
